@@ -53,7 +53,15 @@ pub fn child(args: &[String]) {
     let port: u16 = args[0].parse().expect("port");
     if std::env::var_os("VERIF_CHILD_STDERR").is_some() {
         // diagnostics only: the application's own log lines on stderr
-        let _ = tracing_subscriber::fmt().with_env_filter("info").with_writer(std::io::stderr).try_init();
+        let _ = std::fs::create_dir_all("/tmp/verif-child-logs");
+        match std::fs::File::create(format!("/tmp/verif-child-logs/{port}.log")) {
+            Ok(f) => {
+                let _ = tracing_subscriber::fmt().with_env_filter("debug,h2=info,hyper=info,tower=info").with_ansi(false).with_writer(std::sync::Mutex::new(f)).try_init();
+            }
+            Err(_) => {
+                let _ = tracing_subscriber::fmt().with_env_filter("info").with_writer(std::io::stderr).try_init();
+            }
+        }
     }
     let mut c = passage::config::Config::default();
     c.address = format!("127.0.0.1:{port}");
